@@ -13,6 +13,8 @@ worker_init = _recov.worker_init
 def run_case(params, prefix):
     ex, res = _recov.run(params, prefix)
     m = params["max_retries"]  # None = DummyFailureManager
+    if params.get("budget"):
+        return run_budget_case(params, prefix)
     f = params["plan"][0] if params.get("plan") else None
     base = f"C17|{_exec.spec_key(params['spec'])}|max_retries={m}|" + (
         f"{f['job']}:{f['phase']}:{f['kind']}x{f['count']}" if f else "nofault")
@@ -57,6 +59,60 @@ def run_case(params, prefix):
     return _recov.make_outcome(ex, res, fails)
 
 
+def run_budget_case(params, prefix):
+    """several jobs fail fail-stop and lose their ancestors' outputs: the ancestors are rolled back by OTHER jobs'
+    failures.  Only the bound is asserted: nobody runs more than max_retries times, the run terminates, and if it
+    returns its outputs are right (whether it must raise depends on how the budget is shared, which the property
+    does not fix)."""
+    ex, res = _recov.run(params, prefix)
+    m = params["max_retries"]
+    base = f"C17|budget|{_exec.spec_key(params['spec'])}|max_retries={m}|" + _recov.base_key(params).split("|plan=")[1]
+    fails = []
+    run_ = res.get("run")
+    if ex.hang:
+        key = _recov.hang_key("C17", params, run_, base)
+        fails.append((key, f"executor never returns; pending {ex.pending[:6]}; executions {run_.exec_log if run_ else None}"))
+    elif ex.error:
+        fails.append((base + "|error", f"{ex.error[0]}: {ex.error[1]!r}"))
+    else:
+        counts, fexec = _recov.summarize(res)
+        over = {j: n for j, n in counts.items() if n > m}
+        if over:
+            fails.append((base + "|too-many-executions", f"jobs executed more often than the retry limit {m}: {over}; "
+                                                         f"executions {run_.exec_log}; failures {run_.failure_log}"))
+        if not res.get("raised") and res.get("ret_content") != res["expected"]:
+            fails.append((base + "|outputs", f"outputs {res.get('ret_content')} != {res['expected']}"))
+        if res.get("raised") and "WorkflowExecutionException" not in res["raised"] and "FailureHandlingException" not in res["raised"]:
+            fails.append((base + "|raise-type", f"run() raised {res['raised']}"))
+        if res.get("pending_after_run"):
+            fails.append((base + "|pending", f"tasks pending at quiescence: {res['pending_after_run'][:5]}"))
+    return _recov.make_outcome(ex, res, fails)
+
+
+def budget_cases(tier):
+    quick = tier == "quick"
+    out = []
+
+    def fs(job, lose, count=1):
+        return {"job": job, "phase": "execute", "kind": "failstop", "count": count, "lose": lose}
+
+    for m in ((2, 3) if quick else (2, 3, 4)):
+        spec = {"prog": "filejobs", "k": 3}
+        for c1 in (1, 2):
+            for c2 in (1, 2):
+                plan = [fs("/f1/0", ["/f0/0"], c1), fs("/f2/0", ["/f0/0", "/f1/0"], c2)]
+                out.append({"spec": spec, "plan": plan, "fm": _recov.FM(m), "max_retries": m, "budget": True, "bound": 0})
+                if c1 == c2 == 1:
+                    out.append({"spec": spec, "plan": plan, "fm": _recov.FM(m), "max_retries": m, "budget": True, "idle_only": True,
+                                "bound": 1 if quick else 2})
+        spec = {"prog": "filescatter", "n": 2}
+        plan = [fs("/B/0.0", ["/A/0"]), fs("/B/0.1", ["/A/0"]), fs("/C/0", ["/A/0", "/B/0.0", "/B/0.1"])]
+        out.append({"spec": spec, "plan": plan, "fm": _recov.FM(m), "max_retries": m, "budget": True, "bound": 0})
+        out.append({"spec": spec, "plan": plan[:2], "fm": _recov.FM(m), "max_retries": m, "budget": True, "idle_only": True,
+                    "bound": 1})
+    return out
+
+
 def cases_for(tier):
     quick = tier == "quick"
     shapes = [{"prog": "jobs", "k": 2}, {"prog": "filejobs", "k": 2}, {"prog": "scatterjobs", "n": 2},
@@ -88,7 +144,7 @@ def cases_for(tier):
             for phase in ("execute", "transfer", "schedule"):
                 f = {"job": j, "phase": phase, "kind": "soft", "count": 1}
                 out.append({"spec": spec, "plan": [f], "fm": None, "max_retries": None, "bound": 1})
-    return out
+    return out + budget_cases(tier)
 
 
 def main(argv=None):
